@@ -33,6 +33,24 @@ Proof. intros n n' Hn Hle. rewrite !frame_bits_spec_lemma by lia. lia. Qed.
 Lemma frame_bits_strict_mono : forall n n', (0 <= n)%Z -> (n < n')%Z -> (frame_bits 0 n < frame_bits 0 n')%Z.
 Proof. intros n n' Hn Hle. rewrite !frame_bits_spec_lemma by lia. lia. Qed.
 
+(* any bus type value (for a type other than CAN 2.0A the three constants are 0) *)
+Lemma frame_bits_mono_any : forall typ n n', (0 <= n)%Z -> (n <= n')%Z -> (frame_bits typ n <= frame_bits typ n')%Z.
+Proof.
+  intros typ n n' Hn Hle. unfold frame_bits, stuffing_bits.
+  assert (H : (Z.quot (header_stuffing_bits typ + n * 8 - 1) 4 <= Z.quot (header_stuffing_bits typ + n' * 8 - 1) 4)%Z)
+    by (apply Z.quot_le_mono; lia).
+  lia.
+Qed.
+
+Lemma frame_bits_nonneg_any : forall typ n, (0 <= n)%Z -> (0 <= frame_bits typ n)%Z.
+Proof.
+  intros typ n Hn. unfold frame_bits, stuffing_bits, header_bits, trailer_bits, header_stuffing_bits.
+  destruct (typ =? 0)%Z.
+  - assert (0 <= Z.quot (34 + n * 8 - 1) 4)%Z by (apply Z.quot_pos; lia). lia.
+  - assert (Z.quot (-1) 4 <= Z.quot (0 + n * 8 - 1) 4)%Z by (apply Z.quot_le_mono; lia).
+    change (Z.quot (-1) 4) with 0%Z in H. lia.
+Qed.
+
 Lemma cycle_or_default_pos : forall c d, (0 <= c)%Z -> (0 < d)%Z -> (0 < cycle_or_default c d)%Z.
 Proof. intros c d Hc Hd. unfold cycle_or_default. destruct (c =? 0)%Z eqn:E; lia. Qed.
 
@@ -247,6 +265,22 @@ Proof.
   pose proof (total_pos def (bus_msgs b) Hd Hne Hv) as Hpos. rewrite Hz in Hpos. discriminate.
 Qed.
 
+(* every entry carries the rate of its own message, which is one of the sent messages (no
+   hypothesis on the total) *)
+Lemma entries_bps_lemma : forall b def load es,
+  (0 < def)%Z -> b_baud b <> 0%Z -> calculate_bus_load b def = BLOk load es ->
+  Forall (fun e => e_bps e = bps (b_typ b) def (e_msg e) /\ In (e_msg e) (bus_msgs b)) es.
+Proof.
+  intros b def load es Hd Hb H.
+  pose proof (each_message_once_lemma b def load es Hd Hb H) as Hp.
+  apply calc_ok_inv in H; [|assumption..]. destruct H as [_ ->].
+  apply Forall_forall. intros e He. split.
+  - eapply Permutation_in in He; [|apply sort_desc_perm].
+    unfold with_pct in He. apply in_map_iff in He. destruct He as [e0 [<- He0]].
+    unfold loads in He0. apply in_map_iff in He0. destruct He0 as [m [<- _]]. reflexivity.
+  - eapply Permutation_in; [exact Hp|]. apply in_map. exact He.
+Qed.
+
 Lemma sorted_desc_lemma : forall b def load es,
   calculate_bus_load b def = BLOk load es -> StronglySorted desc es.
 Proof.
@@ -312,54 +346,54 @@ Proof.
   apply Qplus_le_r. apply Qplus_le_l. exact Hle.
 Qed.
 
-Lemma bps_mono_size : forall def m m', (0 < def)%Z -> valid_msg m ->
-  m_cycle m' = m_cycle m -> (m_size m <= m_size m')%Z -> bps 0 def m <= bps 0 def m'.
+Lemma bps_mono_size : forall typ def m m', (0 < def)%Z -> valid_msg m ->
+  m_cycle m' = m_cycle m -> (m_size m <= m_size m')%Z -> bps typ def m <= bps typ def m'.
 Proof.
-  intros def m m' Hd [Hs Hc] Hcy Hsz. unfold bps, Qdiv. rewrite Hcy.
+  intros typ def m m' Hd [Hs Hc] Hcy Hsz. unfold bps, Qdiv. rewrite Hcy.
   apply Qmult_le_compat_r; [|apply inject_nonneg; lia].
   apply Qmult_le_compat_r.
-  - apply inject_le. apply frame_bits_mono; assumption.
+  - apply inject_le. apply frame_bits_mono_any; assumption.
   - apply Qlt_le_weak, Qinv_lt_0_compat, inject_pos. apply cycle_or_default_pos; assumption.
 Qed.
 
-Lemma bps_anti_cycle : forall def m m', (0 < def)%Z -> valid_msg m ->
+Lemma bps_anti_cycle : forall typ def m m', (0 < def)%Z -> valid_msg m ->
   m_size m' = m_size m ->
   (0 < cycle_or_default (m_cycle m') def <= cycle_or_default (m_cycle m) def)%Z ->
-  bps 0 def m <= bps 0 def m'.
+  bps typ def m <= bps typ def m'.
 Proof.
-  intros def m m' Hd [Hs Hc] Hsz [Hc0 Hcle]. unfold bps, Qdiv. rewrite Hsz.
+  intros typ def m m' Hd [Hs Hc] Hsz [Hc0 Hcle]. unfold bps, Qdiv. rewrite Hsz.
   apply Qmult_le_compat_r; [|apply inject_nonneg; lia].
-  rewrite !(Qmult_comm (inject_Z (frame_bits 0 (m_size m)))).
+  rewrite !(Qmult_comm (inject_Z (frame_bits typ (m_size m)))).
   apply Qmult_le_compat_r.
   - apply Qinv_le_contra; [apply inject_pos; exact Hc0 | apply inject_le; exact Hcle].
-  - apply inject_nonneg. pose proof (frame_bits_pos _ Hs). lia.
+  - apply inject_nonneg. apply frame_bits_nonneg_any. exact Hs.
 Qed.
 
 Lemma monotone_size_lemma : forall b b' def load es load' es' l1 l2 m m',
-  (0 < def)%Z -> (0 < b_baud b)%Z -> b_baud b' = b_baud b -> b_typ b = 0%Z -> b_typ b' = 0%Z ->
+  (0 < def)%Z -> (0 < b_baud b)%Z -> b_baud b' = b_baud b -> b_typ b' = b_typ b ->
   bus_msgs b = l1 ++ m :: l2 -> bus_msgs b' = l1 ++ m' :: l2 ->
   valid_msg m -> m_cycle m' = m_cycle m -> (m_size m <= m_size m')%Z ->
   calculate_bus_load b def = BLOk load es -> calculate_bus_load b' def = BLOk load' es' ->
   load <= load'.
 Proof.
-  intros b b' def load es load' es' l1 l2 m m' Hd Hb Hb' Ht Ht' Hm Hm' Hv Hcy Hsz H H'.
+  intros b b' def load es load' es' l1 l2 m m' Hd Hb Hb' Ht Hm Hm' Hv Hcy Hsz H H'.
   apply (load_le_of_bps_le b b' def load es load' es' l1 l2 m m' Hd Hb Hb');
-    [congruence | exact Hm | exact Hm' | | exact H | exact H'].
-  rewrite Ht. apply bps_mono_size; assumption.
+    [exact Ht | exact Hm | exact Hm' | | exact H | exact H'].
+  apply bps_mono_size; assumption.
 Qed.
 
 Lemma antitone_cycle_lemma : forall b b' def load es load' es' l1 l2 m m',
-  (0 < def)%Z -> (0 < b_baud b)%Z -> b_baud b' = b_baud b -> b_typ b = 0%Z -> b_typ b' = 0%Z ->
+  (0 < def)%Z -> (0 < b_baud b)%Z -> b_baud b' = b_baud b -> b_typ b' = b_typ b ->
   bus_msgs b = l1 ++ m :: l2 -> bus_msgs b' = l1 ++ m' :: l2 ->
   valid_msg m -> m_size m' = m_size m ->
   (0 < cycle_or_default (m_cycle m') def <= cycle_or_default (m_cycle m) def)%Z ->
   calculate_bus_load b def = BLOk load es -> calculate_bus_load b' def = BLOk load' es' ->
   load <= load'.
 Proof.
-  intros b b' def load es load' es' l1 l2 m m' Hd Hb Hb' Ht Ht' Hm Hm' Hv Hsz Hcy H H'.
+  intros b b' def load es load' es' l1 l2 m m' Hd Hb Hb' Ht Hm Hm' Hv Hsz Hcy H H'.
   apply (load_le_of_bps_le b b' def load es load' es' l1 l2 m m' Hd Hb Hb');
-    [congruence | exact Hm | exact Hm' | | exact H | exact H'].
-  rewrite Ht. apply bps_anti_cycle; assumption.
+    [exact Ht | exact Hm | exact Hm' | | exact H | exact H'].
+  apply bps_anti_cycle; assumption.
 Qed.
 
 (* the exact load does not depend on the (map) order in which the messages are visited *)
